@@ -396,18 +396,34 @@ impl Engine for LoopSim {
                 // start the real loop
                 let text: String = (0..self.n).map(|i| format!("127.0.0.{}\n", 10 + i)).collect();
                 std::fs::write(self.ips_path(), text).expect("write ips file");
-                self.srt_port = StdUdp::bind("[::]:0").and_then(|s| s.local_addr()).map(|a| a.port()).expect("free port");
-                let (path, rport, port, config) = (self.ips_path(), self.rport, self.srt_port, self.config.clone());
-                let binder: Arc<dyn UplinkBinder> = Arc::new(SourceIpBinder);
                 self.rt.block_on(async { START.with(|s| s.set(Some(tokio::time::Instant::now()))) });
                 srtla_core::verif::set_clock_fn(Some(vnow));
-                self.task = Some(self.rt.spawn(async move {
-                    srtla_send::sender::run_sender_with_config(
-                        port, "127.0.0.1", rport, &path, config, srtla_send::stats::SharedStats::new(),
-                        CriticalWindow::new(), srtla_send::subscriptions::SubscriptionHub::new(), binder,
-                    )
-                    .await
-                }));
+                // the local SRT port is picked by binding port 0 and releasing it; another process may grab it in
+                // between (parallel checks), in which case the loop returns at once with a bind error: try again
+                for attempt in 0..8 {
+                    self.srt_port = StdUdp::bind("[::]:0").and_then(|s| s.local_addr()).map(|a| a.port()).expect("free port");
+                    let (path, rport, port, config) = (self.ips_path(), self.rport, self.srt_port, self.config.clone());
+                    let binder: Arc<dyn UplinkBinder> = Arc::new(SourceIpBinder);
+                    let task = self.rt.spawn(async move {
+                        srtla_send::sender::run_sender_with_config(
+                            port, "127.0.0.1", rport, &path, config, srtla_send::stats::SharedStats::new(),
+                            CriticalWindow::new(), srtla_send::subscriptions::SubscriptionHub::new(), binder,
+                        )
+                        .await
+                    });
+                    self.settle();
+                    if !task.is_finished() {
+                        self.task = Some(task);
+                        break;
+                    }
+                    let res = self.rt.block_on(task);
+                    if attempt == 7 {
+                        panic!("harness: the event loop does not start: {res:?}");
+                    }
+                    // whatever the failed start put on the wire belongs to no run
+                    let mut buf = [0u8; 2048];
+                    while self.receiver.recv_from(&mut buf).is_ok() {}
+                }
                 line["n"] = json!(self.n);
                 line["mode"] = json!(if self.config.mode().is_classic() { "classic" } else { "enhanced" });
                 line["timeout"] = json!(self.timeout_ms);
